@@ -33,6 +33,22 @@ type Case struct {
 	Depth  int    `json:"depth"`
 	Width  int    `json:"width"`
 	Op     string `json:"op"`
+	// family "random": an irregular layered DAG, a pure function of these fields
+	Widths  []int  `json:"widths,omitempty"`
+	Density int    `json:"density,omitempty"` // percent of the possible edges to the previous layer
+	Skip    int    `json:"skip,omitempty"`    // percent of the possible edges to the layer before that
+	Seed    uint32 `json:"seed,omitempty"`
+}
+
+// mix is a small deterministic hash: the irregular family must not own a random source of its own.
+func mix(a, b, c, d uint32) uint32 {
+	h := a*0x9E3779B1 ^ (b+0x7F4A7C15)*0x85EBCA77 ^ (c+0x165667B1)*0xC2B2AE3D ^ (d+0x27D4EB2F)*0x27D4EB2F
+	h ^= h >> 15
+	h *= 0x2C1B3C6D
+	h ^= h >> 12
+	h *= 0x297A2D39
+	h ^= h >> 15
+	return h
 }
 
 // countingNode is a BuildNode that counts the work the selector does on it.
@@ -77,6 +93,46 @@ func family(c Case) shape {
 		}
 		s.layers = append(s.layers, []string{"top"})
 		s.edges["top"] = append([]string{}, s.layers[len(s.layers)-2]...)
+	case "random":
+		s.layers = append(s.layers, []string{"root"})
+		for d, w := range c.Widths {
+			var layer []string
+			for i := 0; i < w; i++ {
+				n := fmt.Sprintf("n%d_%d", d, i)
+				layer = append(layer, n)
+				prev := s.layers[len(s.layers)-1]
+				for j, pn := range prev {
+					// the first edge keeps every node on a path from the root
+					if j == i%len(prev) || int(mix(c.Seed, uint32(d), uint32(i), uint32(j))%100) < c.Density {
+						s.edges[n] = append(s.edges[n], pn)
+					}
+				}
+				if len(s.layers) >= 2 {
+					for j, pn := range s.layers[len(s.layers)-2] {
+						if int(mix(c.Seed^0xABCDEF, uint32(d), uint32(i), uint32(j))%100) < c.Skip {
+							s.edges[n] = append(s.edges[n], pn)
+						}
+					}
+				}
+			}
+			s.layers = append(s.layers, layer)
+		}
+		s.layers = append(s.layers, []string{"top"})
+		s.edges["top"] = append([]string{}, s.layers[len(s.layers)-2]...)
+		// nodes nothing depends on would not be reached from "top": hang them under it
+		used := map[string]bool{}
+		for _, ds := range s.edges {
+			for _, d := range ds {
+				used[d] = true
+			}
+		}
+		for _, layer := range s.layers[1 : len(s.layers)-2] {
+			for _, n := range layer {
+				if !used[n] {
+					s.edges["top"] = append(s.edges["top"], n)
+				}
+			}
+		}
 	case "dense":
 		n := c.Depth
 		for i := 0; i < n; i++ {
@@ -278,6 +334,65 @@ func runOp(c Case) (opResult, error) {
 		if calls != 1 {
 			return res, fmt.Errorf("callbacks=%d, want only the failing root", calls)
 		}
+	case "findcycle", "findcycle-back", "subgraph":
+		nodes := model.BuildNodeMap{}
+		for _, layer := range s.layers {
+			for _, n := range layer {
+				t := &model.Target{Label: tl(n), Command: "true"}
+				t.Select()
+				nodes[t.Label] = t
+			}
+		}
+		g := dag.NewDirectedGraphFromMap(nodes)
+		for n, ds := range s.edges {
+			for _, d := range ds {
+				if err := g.AddEdge(nodes[tl(d)], nodes[tl(n)]); err != nil {
+					return res, err
+				}
+			}
+		}
+		if c.Op == "findcycle-back" {
+			// the only cycle closes over the whole depth of the graph
+			if err := g.AddEdge(nodes[tl("top")], nodes[tl("root")]); err != nil {
+				return res, err
+			}
+		}
+		start := cpu()
+		switch c.Op {
+		case "subgraph":
+			sub := g.GetSelectedSubgraph()
+			res.cpu = cpu() - start
+			se := 0
+			for _, l := range sub.GetOutEdges() {
+				se += len(l)
+			}
+			if len(sub.GetNodes()) != v || se != e {
+				return res, fmt.Errorf("subgraph of a fully selected graph has %d nodes/%d edges, want %d/%d", len(sub.GetNodes()), se, v, e)
+			}
+		default:
+			cyc, found := g.FindCycle()
+			res.cpu = cpu() - start
+			if found != (c.Op == "findcycle-back") {
+				return res, fmt.Errorf("FindCycle found=%v on %s", found, c.Op)
+			}
+			if found {
+				// a cycle is a closed walk along edges: first == last, consecutive nodes joined by an out-edge
+				if len(cyc) < 2 || cyc[0] != cyc[len(cyc)-1] {
+					return res, fmt.Errorf("reported cycle is not closed (%d nodes)", len(cyc))
+				}
+				for i := 0; i+1 < len(cyc); i++ {
+					ok := false
+					for _, to := range g.GetOutEdges()[cyc[i].GetLabel()] {
+						if to == cyc[i+1] {
+							ok = true
+						}
+					}
+					if !ok {
+						return res, fmt.Errorf("reported cycle uses a non-edge %s -> %s", cyc[i].GetLabel(), cyc[i+1].GetLabel())
+					}
+				}
+			}
+		}
 	case "walk-ok":
 		g, nodes, err := targetGraph(s, 0)
 		if err != nil {
@@ -302,6 +417,18 @@ func runOp(c Case) (opResult, error) {
 func paths(c Case) float64 {
 	p := 1.0
 	switch c.Family {
+	case "random":
+		// exact count of root->top dependency paths by dynamic programming over the layers
+		s := family(c)
+		cnt := map[string]float64{"root": 1}
+		for _, layer := range s.layers[1:] {
+			for _, n := range layer {
+				for _, d := range s.edges[n] {
+					cnt[n] += cnt[d]
+				}
+			}
+		}
+		return cnt["top"]
 	case "ladder":
 		for i := 1; i < c.Depth; i++ {
 			p *= float64(c.Width)
@@ -317,6 +444,9 @@ func paths(c Case) float64 {
 
 func run(c Case) (pbt.Result, error) {
 	res := pbt.Result{Classes: []string{c.Family + ":" + c.Op}}
+	if c.Family == "random" {
+		c.Depth, c.Width = len(c.Widths), 0
+	}
 	r, err := runOp(c)
 	if err != nil {
 		return res, pbt.Fail("op-error:"+c.Op, "%s on %s(d=%d,w=%d): %v", c.Op, c.Family, c.Depth, c.Width, err)
@@ -326,7 +456,12 @@ func run(c Case) (pbt.Result, error) {
 		return res, pbt.Fail("path-enumeration:"+c.Op, "%s on %s(d=%d,w=%d): work counter %d exceeds %d (graph has %.0f dependency paths)", c.Op, c.Family, c.Depth, c.Width, r.work, r.bound, paths(c))
 	}
 	if c.Family != "chain" {
-		base, berr := runOp(Case{Family: "chain", Depth: c.Depth, Width: max(1, c.Width), Op: c.Op})
+		bc := Case{Family: "chain", Depth: c.Depth, Width: max(1, c.Width), Op: c.Op}
+		if c.Family == "random" {
+			v, _ := family(c).size()
+			bc.Depth, bc.Width = v-2, 1
+		}
+		base, berr := runOp(bc)
 		if berr == nil && (r.note != "" || (r.cpu > cpuLimit && r.cpu > 50*base.cpu+time.Second)) {
 			return res, pbt.Fail("cpu-blowup:"+c.Op, "%s on %s(d=%d,w=%d): %v CPU (%s) vs %v on a chain with the same node count; %.0f paths", c.Op, c.Family, c.Depth, c.Width, r.cpu, r.note, base.cpu, paths(c))
 		}
@@ -335,13 +470,13 @@ func run(c Case) (pbt.Result, error) {
 }
 
 var counterOps = []string{"select", "descendants", "ancestors"}
-var timedOps = []string{"buildgraph", "buildgraph-pair", "buildgraph-pair", "criticalpath", "walk-fail", "walk-ok"}
+var timedOps = []string{"buildgraph", "buildgraph-pair", "buildgraph-pair", "criticalpath", "walk-fail", "walk-ok", "findcycle", "findcycle-back", "subgraph"}
 
 func TestScaling(t *testing.T) {
 	thorough := testingTier() == "thorough"
 	pbt.Main(t, pbt.Spec[Case]{ID: "C19", WAL: true,
 		Gen: func(t *rapid.T) Case {
-			c := Case{Family: rapid.SampledFrom([]string{"ladder", "ladder", "dense", "chain"}).Draw(t, "family")}
+			c := Case{Family: rapid.SampledFrom([]string{"ladder", "ladder", "dense", "chain", "random", "random"}).Draw(t, "family")}
 			timed := rapid.Bool().Draw(t, "timed")
 			if timed {
 				c.Op = rapid.SampledFrom(timedOps).Draw(t, "op")
@@ -361,6 +496,22 @@ func TestScaling(t *testing.T) {
 					maxD = map[int]int{2: 20, 3: 12}[c.Width]
 				}
 				c.Depth = maxD - rapid.IntRange(0, maxD-2).Draw(t, "depth-below-max") // rapid favours small draws: bias towards deep graphs
+			case "random":
+				// irregular layers: the path count is the product of (roughly) density x width per layer
+				maxL := 14
+				if timed {
+					maxL = 20
+				}
+				nl := maxL - rapid.IntRange(0, maxL-4).Draw(t, "layers-below-max")
+				for i := 0; i < nl; i++ {
+					c.Widths = append(c.Widths, rapid.IntRange(1, 4).Draw(t, "w"))
+				}
+				c.Density = rapid.SampledFrom([]int{30, 60, 100}).Draw(t, "density")
+				c.Skip = rapid.SampledFrom([]int{0, 20, 60}).Draw(t, "skip")
+				c.Seed = rapid.Uint32().Draw(t, "seed")
+				for paths(c) > 1<<24 && len(c.Widths) > 2 { // bounded memory should paths be enumerated
+					c.Widths = c.Widths[:len(c.Widths)-1]
+				}
 			case "dense":
 				c.Width = 1
 				maxD := 18
